@@ -111,10 +111,18 @@ func runC26(c *Ctx) error {
 		next, sufH, vcount, ocount, pcount := 0, -1, 0, 0, 0
 		opIDs := []string{"oX"}
 		nsteps := 3 + c.Intn(12)
+		long := i%6 == 5 // chains that pass height 10 (and, in the thorough tier, now and then height 100)
+		if long {
+			nsteps = 24 + c.Intn(8)
+			if c.Thorough() && i%60 == 59 {
+				nsteps = 160
+			}
+			c.Count("chains", "long")
+		}
 		for st := 0; st < nsteps; st++ {
 			var tok string
 			switch k := c.Intn(10); {
-			case k < 6 || next == 0:
+			case k < 6 || next == 0 || (long && k < 8 && st%3 != 0):
 				b := &c19block{Height: next, States: map[string]string{}, SufH: -1}
 				for _, key := range keys {
 					if c.Chance(1, 3) {
